@@ -2245,7 +2245,13 @@ func (p P) ClassifyMismatch(line, goOut, leanOut string) string {
 	// property-level signatures first: they do not depend on how the code groups its
 	// writes into transactions (commit indices, windows, exact persisted fields)
 	if v, ok := lastVerdict[strings.Join(strings.Fields(line), " ")]; ok {
-		if v.reopened && v.tipActive && v.utxoFold && v.indexKnows && v.apis && !v.converged && v.lost {
+		gfw := fields(goOut)
+		tl := strings.Fields(line)
+		// with pruning on, the uninterrupted run itself can end in a degraded state (a reorganisation
+		// that dies after its disconnects because side-chain or parent blocks were pruned) while the run
+		// that crashed inside that activation window stays on the earlier tip
+		inWindow := len(tl) > 3 && tl[3] != "0" && (gfw["w"] != "-" && gfw["w"] != "" || gfw["w1"] != "-" && gfw["w1"] != "")
+		if v.reopened && v.tipActive && v.utxoFold && v.indexKnows && v.apis && !v.converged && (v.lost || inWindow) {
 			// when the run is aligned with the model (every field but `fin` agrees) the final
 			// state must also be exactly the one the model of the code predicts
 			gf, lf := fields(goOut), fields(leanOut)
